@@ -44,6 +44,25 @@ var (
 	debug     = os.Getenv("VERIF_DEBUG") != ""
 )
 
+var baseIP string
+
+// allocAddrs picks fresh ports for the abstract addresses 0‥7 (done for every case: a socket
+// leaked by one case must not be visible to the next one).
+func allocAddrs() {
+	var hold []net.Listener
+	for i := 0; i < NAddr; i++ {
+		ln, err := net.Listen("tcp", baseIP+":0")
+		if err != nil {
+			panic(err)
+		}
+		hold = append(hold, ln)
+		addrs[i] = ln.Addr().String()
+	}
+	for _, ln := range hold {
+		ln.Close()
+	}
+}
+
 func setup() {
 	setupOnce.Do(func() {
 		_ = os.MkdirAll("/verif/.run", 0o755)
@@ -71,18 +90,8 @@ func setup() {
 		} else {
 			ln.Close()
 		}
-		var hold []net.Listener
-		for i := 0; i < NAddr; i++ {
-			ln, err := net.Listen("tcp", ip+":0")
-			if err != nil {
-				panic(err)
-			}
-			hold = append(hold, ln)
-			addrs[i] = ln.Addr().String()
-		}
-		for _, ln := range hold {
-			ln.Close()
-		}
+		baseIP = ip
+		allocAddrs()
 		na, err := caddy.ParseNetworkAddress("unix/" + d + "/admin.sock")
 		if err != nil {
 			panic(err)
@@ -328,6 +337,7 @@ func wantSocks(running *Cfg) map[int][]int {
 func RunCase(ops []Op, enforce bool) []StepObs {
 	setup()
 	_ = caddy.Stop()
+	allocAddrs()
 	mu.Lock()
 	caseNonce++
 	nonce := caseNonce
